@@ -586,6 +586,10 @@ func IsOptionalField(field *protogen.Field) bool {
 	if field.Desc.Kind() == protoreflect.MessageKind && !field.Desc.IsList() && !field.Desc.IsMap() {
 		return true
 	}
+	// A oneof member is only on the wire while it is the selected one
+	if field.Oneof != nil {
+		return true
+	}
 	return false
 }
 
